@@ -118,6 +118,12 @@ package anthropic
 //@   records evStopped = old(evStopped) || (res == nil && event == "message_stop")
 //@   records evBroken = old(evBroken) || res != nil
 
+//@ ghost field strict bool
+//@ extern encoding/json.NewDecoder(r)
+//@   ensures res != nil && fresh(res)
+//@ extern (*encoding/json.Decoder).DisallowUnknownFields()
+//@   modifies ghost(self).strict
+//@   ensures ghost(self).strict
 //@ extern (*net/http.ResponseController).Flush()
 //@   trusted
 //@   modifies gvar evBroken, gvar unflushed
@@ -406,6 +412,10 @@ package anthropic
 //@   requires t != nil && t.logger != nil && t.inspector != nil && r != nil && r.Body != nil
 // the client's body is decoded through a size-capped reader only (max_message_size)
 //@   at call NewDecoder 1 assert ghost(limitedBody).limited
+// ... and strictly: unknown fields are an error (the decoder is switched to strict mode before it is used)
+//@   at call Decode 1 assert ghost(decoder).strict
+//@   at return 1 assert err != nil
+//@   at return 2 assert err != nil
 //@   modifies *
 //@   at call convertMessages 1 assume forall q int :: 0 <= q && q < len(anthropicReq.Messages) ==> (anthropicReq.Messages[q].Role == "user" || anthropicReq.Messages[q].Role == "assistant")
 //@   at return 6 assert len(anthropicReq.StopSequences) > 0 ==> has(openaiReq, "stop") && typeis(openaiReq["stop"], "[]string") && asType(openaiReq["stop"], "[]string") == anthropicReq.StopSequences
